@@ -41,6 +41,8 @@ FOCUS = {
     "fxfy": {"objectBoundingBox": ' fx=".3" fy=".4"', "userSpaceOnUse": ' fx="35" fy="42"'},
     "fr": {"objectBoundingBox": ' fx=".35" fy=".5" fr=".1"', "userSpaceOnUse": ' fx="38" fy="46" fr="6"'},
     "fxpct": {"objectBoundingBox": ' fx="30%" fy="40%"', "userSpaceOnUse": ' fx="35%" fy="42%"'},
+    # round 7: a percentage focal radius (user space: of the normalised diagonal of the 110 x 95 viewBox, not of its width)
+    "frpct": {"objectBoundingBox": ' fx="38%" fy="46%" fr="25%"', "userSpaceOnUse": ' fx="38%" fy="46%" fr="25%"'},
 }
 GT = {
     "none": {"objectBoundingBox": None, "userSpaceOnUse": None},
@@ -324,7 +326,7 @@ def all_cases(tier):
     units = ["objectBoundingBox", "userSpaceOnUse"]
     gts = list(GT)
     if tier == "quick":
-        spreads, hrefs, foci, shapes, chains = ["pad", "reflect"], ["none", "attrs", "chain", "chain3", "chain3own", "partial", "partial-after", "chain-rev", "chain3-rev"], ["none", "fxfy", "fr", "fxpct"], ["rect", "path"], ["none", "translate", "rotscale", "groupmatrix", "mirror", "flipscale"]
+        spreads, hrefs, foci, shapes, chains = ["pad", "reflect"], ["none", "attrs", "chain", "chain3", "chain3own", "partial", "partial-after", "chain-rev", "chain3-rev"], ["none", "fxfy", "fr", "fxpct", "frpct"], ["rect", "path"], ["none", "translate", "rotscale", "groupmatrix", "mirror", "flipscale"]
     else:
         spreads, hrefs, foci, shapes, chains = ["pad", "reflect", "repeat"], ["none", "attrs", "stops", "chain", "chain3", "chain3own", "partial", "partial-after", "chain-rev", "chain3-rev"], list(FOCUS), list(SHAPES), list(CHAINS)
     for kind in kinds:
@@ -359,7 +361,7 @@ def cases(tier, seed):
 def run(run):
     run.rule = (
         "E2 + R3 gradient evaluator: kind {linear, radial} x coordinates {defaults, numbers, percentages} x gradientUnits 2 x gradientTransform {none, translate, scale.translate, rotate, matrix} "
-        "x spreadMethod x href {none, template supplies attributes, template supplies stops, chain of two} x radial focus {none, fx, fx+fy, fr, percentages} x shape {rect, circle, path} x "
+        "x spreadMethod x href {none, template supplies attributes, template supplies stops, chain of two} x radial focus {none, fx, fx+fy, fr, percentages, percentage fr (non-square viewBox)} x shape {rect, circle, path} x "
         "shape transform chain {none, translate, rotate.scale, group translate + own matrix, mirror, flip.scale} (quick: reduced spread/href/focus/shape alphabets); ONE gradient shared by two shapes "
         "(3 shape pairs incl. coincident geometry); the picture in a user space of size 0.02-1 (conversion with ndigits=8) with gradientTransform translations at / below 1e-4; ONE gradient shared: (3 shape pairs incl. coincident geometry) x own transforms {none, translate, scale, rotate, matrix, mirror}^2 x {no group, group around the second, group around both, second shape a <use> of the first}. Oracle: at every lattice point strictly inside "
         "the shape in both renderings the raw gradient parameter agrees within 1e-3 and the colour within 2.5/255; output gradients self-contained (R4 with own stops). "
